@@ -24,6 +24,11 @@ class ForkReq(Exception):
         self.states = states
 
 
+class ForkList(list):
+    """returned by an intercept that forks: list of (state, value)."""
+    pass
+
+
 class Frame:
     __slots__ = ('fid', 'fn', 'blocks', 'bi', 'ii', 'regs', 'defers', 'ret', 'merge_id')
 
@@ -223,6 +228,7 @@ class Exec:
         self.bv_cache = {}
         self.probe_bv = z3.Probe('is-qfbv')
         self.inc = z3.Solver()
+        self.fp_tactic = z3.Then('simplify', 'fpa2bv', 'simplify', 'bit-blast', 'sat')
         self.inc_stack = []
         self._last_model = None
 
@@ -298,10 +304,14 @@ class Exec:
             return Agg([self.ite(g, x, y, lf) for x, y, lf in zip(a, b, leafs)])
         return self.ite(g, a, b, u)
 
-    def sym_candidates(self, ptr):
+    def sym_candidates(self, ptr, st=None):
         """list of (guard, offset) for a pointer with symbolic indices."""
         cands = [(True, ptr.off)]
         for (idx, stride, count) in ptr.sym:
+            if st is not None and idx.get_id() in st.conc:
+                k = st.conc[idx.get_id()]
+                cands = [(g, off + k * stride) for (g, off) in cands]
+                continue
             nc = []
             for (g, off) in cands:
                 for k in range(count):
@@ -328,12 +338,22 @@ class Exec:
             if v is POISON:
                 raise EngineError('read of poisoned global')
             return v
-        cands = self.sym_candidates(ptr)
+        cands = self.sym_candidates(ptr, st)
         leafs = self.leafs(t)
         out = []
-        for j in range(n):
-            vals = [(g, slots[off + j]) for (g, off) in cands]
-            out.append(self.ite_chain(vals, leafs[j]))
+        try:
+            for j in range(n):
+                vals = [(g, slots[off + j]) for (g, off) in cands]
+                out.append(self.ite_chain(vals, leafs[j]))
+        except Unmergeable:
+            # elements of different shape (e.g. strings of different length):
+            # fork over the feasible index values instead
+            todo = [idx for (idx, stride, count) in ptr.sym if idx.get_id() not in st.conc]
+            if not todo:
+                raise
+            for idx in todo:
+                self.concretize(st, idx, 'array index')
+            return self.load(st, ptr, t)
         if self.is_agg(t):
             return Agg(out)
         return out[0]
@@ -431,7 +451,7 @@ class Exec:
             off = ptr.off
             slots[off:off + len(vals)] = vals
             return
-        cands = self.sym_candidates(ptr)
+        cands = self.sym_candidates(ptr, st)
         for (g, off) in cands:
             for j, v in enumerate(vals):
                 slots[off + j] = self.ite(g, v, slots[off + j], self.leaf_of(ptr.obj, off + j))
@@ -477,13 +497,23 @@ class Exec:
             if extra is not None:
                 self.inc.pop()
         else:
-            s = z3.Solver()
+            # floating point: eager bit-blasting pipeline first (3-4x faster on
+            # the typical infeasible branch), ordinary solver when it cannot decide
+            s = self.fp_tactic.solver()
             s.set('timeout', self.feas_timeout)
             for c in pc:
                 s.add(c)
             if extra is not None:
                 s.add(extra)
             r = s.check()
+            if r == z3.unknown:
+                s = z3.Solver()
+                s.set('timeout', self.feas_timeout)
+                for c in pc:
+                    s.add(c)
+                if extra is not None:
+                    s.add(extra)
+                r = s.check()
             m = s.model() if r == z3.sat else None
         self.res.solver_time += time.time() - t0
         if r == z3.sat:
@@ -884,7 +914,7 @@ class Exec:
             self.res.stubs.add(name)
         if h is not None:
             v = h(self, st, fr, ins, args)
-            if isinstance(v, list):   # fork: list of (state, value)
+            if isinstance(v, ForkList):   # fork: list of (state, value)
                 outs = []
                 for (s2, val2) in v:
                     f2 = s2.frames[-1]
